@@ -5,7 +5,7 @@ ID=$1; D=$(cd "$2" && pwd); TIER=${3:-quick}
 cd /verif
 git -C /repo diff --quiet || { echo "/repo working tree is not clean"; exit 2; }
 git -C /repo apply "$D/patch.diff" || { echo "patch does not apply"; exit 2; }
-./check $ID --tier $TIER > "$D/check.$TIER.log" 2>&1; rc=$?
+VERIF_FAILFAST=${VERIF_FAILFAST:-} ./check $ID --tier $TIER > "$D/check.$TIER.log" 2>&1; rc=$?
 git -C /repo checkout -- .
 grep -E "VIOLATION|KNOWN-FINDING|^$ID " "$D/check.$TIER.log" | tail -8
 exit $rc
